@@ -526,7 +526,8 @@ def rj1(ctx, R):
         sy = Sym(prog, g, g.cls, inline=False)
         # the branch that handles an object never seen before is the one that creates a new segment object
         creations = [c for c in walk_body(g.node) if isinstance(c, ast.Call) and call_reaches(ctx, g, c, ctor_quals)]
-        cguards = [set(alpha(x) for x in sy.env_at(c)[1]) for c in creations]
+        # ... compared without the tests of the header itself (a raise moved in front of the creation leaves its negation there)
+        cguards = [set(alpha(x) for x in sy.env_at(c)[1] if not find(x, ("const", MP))) for c in creations]
         for st in walk_body(g.node):
             if not isinstance(st, ast.Raise):
                 continue
@@ -935,8 +936,55 @@ def ow3(ctx, R):
     if n_scaling_classes < 12:
         raise AnchorMissing("classes with a scale method in nptdms.scaling (found %d)" % n_scaling_classes)
     n_inplace = 0
+    def is_mapping_local(g, name):
+        """every definition of the local builds a dictionary or a set (never an array): {..}, dict(..), dict.fromkeys(..), defaultdict(..), set(..)"""
+        defs = [n_.value for n_ in walk_body(g.node) if isinstance(n_, ast.Assign) and any(isinstance(t_, ast.Name) and t_.id == name for t_ in n_.targets)]
+        def builds_mapping(v):
+            if isinstance(v, (ast.Dict, ast.DictComp, ast.Set, ast.SetComp)):
+                return True
+            if isinstance(v, ast.Call):
+                d_ = call_name(v) or (dotted(v.func) or "")
+                return d_.split(".")[-1] in ("dict", "OrderedDict", "defaultdict", "set", "fromkeys", "Counter")
+            return False
+        return bool(defs) and all(builds_mapping(v) for v in defs)
+
+    def bookkeeping_params(fi):
+        """parameters of a hook that never carry data: every call in the module passes a fresh empty container (`{}`, `dict()`, `[]`,
+        `set()`), None, or - inside the hook itself - the parameter on unchanged (a per-call memo / visited set handed down a recursion)"""
+        from .flow import resolve_call
+        out = set()
+        ps_ = [p_ for p_ in fi.params if p_ not in ("self", "cls")]
+        seen = {p_: [] for p_ in ps_}
+        for g in prog.functions.values():
+            if g.module is not smod:
+                continue
+            for c_ in walk_body(g.node):
+                if isinstance(c_, ast.Call) and any(t_ is fi for t_, _k in resolve_call(prog, g, g.cls, c_)):
+                    bound = dict(zip(ps_, c_.args))
+                    bound.update({k_.arg: k_.value for k_ in c_.keywords if k_.arg})
+                    for p_ in ps_:
+                        a = bound.get(p_)
+                        if a is None:
+                            d_ = fi.defaults.get(p_) if hasattr(fi, "defaults") else None
+                            seen[p_].append("fresh" if d_ is not None and isinstance(d_, ast.Constant) and d_.value is None else "other")
+                        elif (isinstance(a, (ast.Dict, ast.List, ast.Set)) and not (getattr(a, "keys", None) or getattr(a, "elts", None))) or \
+                                (isinstance(a, ast.Call) and call_name(a) in ("dict", "list", "set", "OrderedDict", "defaultdict") and not a.args) or \
+                                (isinstance(a, ast.Constant) and a.value is None):
+                            seen[p_].append("fresh")
+                        elif isinstance(a, ast.Name) and a.id == p_ and g is fi:
+                            seen[p_].append("same")
+                        elif isinstance(a, ast.Name) and a.id not in g.params and is_mapping_local(g, a.id):
+                            seen[p_].append("fresh")
+                        else:
+                            seen[p_].append("other")
+        for p_, kinds_ in seen.items():
+            if kinds_ and "fresh" in kinds_ and all(k_ in ("fresh", "same") for k_ in kinds_):
+                out.add(p_)
+        return out
     for fi in sorted(scale_funcs, key=lambda f: f.qual):
         protected = {p for p in fi.params if p != "self"}
+        if fi.name not in ("scale", "scale_daqmx"):
+            protected -= bookkeeping_params(fi)
         w = AliasWalker(prog, fi, protected, summaries=summaries).run()
         bad = [m for m in w.mutations if m.kind == ALIAS]
         unk = [m for m in w.mutations if m.kind == UNKNOWN and not m.name.startswith("self")]
